@@ -20,6 +20,7 @@ import (
 func main() {
 	engine := flag.String("engine", "both", "v1|v2|both")
 	maxprocs := flag.Int("gomaxprocs", 0, "force GOMAXPROCS of every generated case (0 = generated)")
+	family := flag.String("family", "", "masks = run the exhaustive filter-mask enumeration instead of random cases")
 	corpus := flag.String("corpus", "", "directory of *.jsonl regression inputs that are run before the generated cases")
 	child := flag.Bool("child", false, "internal: run cases from stdin (the engines run in a child process)")
 	o := hx.ParseFlags()
@@ -73,6 +74,10 @@ func main() {
 			}
 			emit(c)
 		}
+	} else if *family == "masks" {
+		for _, c := range enginex.MaskCases() {
+			emit(c)
+		}
 	} else {
 		if *corpus != "" {
 			files, _ := filepath.Glob(filepath.Join(*corpus, "*.jsonl"))
@@ -104,6 +109,10 @@ func main() {
 			if i%16 == 12 || i%16 == 13 {
 				// a fixed 1 in 8 of the cases of each engine: cancel in the middle of a fan-out
 				c = enginex.GenDirected(r, eng)
+			}
+			if i%16 == 15 {
+				// 1 in 8 of the v2 cases: large batches through filter -> transform
+				c = enginex.GenFilterChain(r)
 			}
 			if *maxprocs > 0 {
 				c.GoMaxProcs = *maxprocs
